@@ -284,7 +284,17 @@ def main():
         ],
         "checks": checks,
         "not_applicable": na,
-        "notes": "All checks: ./check Cxx --tier quick|thorough. known_findings.json lists recorded defects and fixed ones.",
+        "notes": ("All checks: ./check Cxx --tier quick|thorough (checks may be started in parallel; VERIF_SEED is honoured; "
+                  "VERIF_REPO=<tree> runs a check against another checkout and writes evidence to .build/evidence-mut). Every claimed check is a Lean 4 "
+                  "proof: the theorems of lean/GoluaVerif/Props/Cxx*.lean are re-elaborated on every run against definitions REGENERATED from /repo "
+                  "(extract/golean, extract/gofacts and the small fact extractors) and/or hand-written models tied to /repo by a correspondence run of the "
+                  "compiled Lean definitions against the real code; a broken theorem or tie is a VIOLATION (with a failing input when the search finds "
+                  "one, otherwise ending in no-failing-input-found). Trusted base: Lean 4.33 kernel (leanchecker re-checks in the thorough tier); axioms "
+                  "per theorem are audited on every run and must be within propext, Classical.choice, Quot.sound (no sorry/admit/axiom/native_decide/"
+                  "bv_decide anywhere: grep-checked); my translator, extractors, harnesses and line-protocol parsers (unverified; every translated function "
+                  "is also exercised by correspondence); what each model abstracts is in each check's level_note and DESIGN.md 5 and 14. "
+                  "known_findings.json lists the recorded defects (printed as KNOWN-FINDING, exit 0) and the repaired ones (`fixed:` lines with the "
+                  "golua commit); seeded/ holds the seeded changes used to test the checks, seeded/SWEEP.md the last sweep."),
     }
     with open(os.path.join(ROOT, "MANIFEST.json"), "w") as f:
         json.dump(m, f, indent=1)
